@@ -298,6 +298,7 @@ EnvStages == {"down", "idle", "fetch"}
 
 Corrupt(x, flavour) ==
     /\ stage \in EnvStages /\ nenv < MaxEnv
+    /\ (other # NoOther => other.slot # x)
     /\ x \in DOMAIN files /\ files[x].st = "file" /\ files[x].cut = FLen
     /\ flavour \in {"garbage", "falsy", "nontable"}
     /\ files' = [files EXCEPT ![x] = [st |-> flavour, tab |-> <<>>, cut |-> 0, under |-> ""]]
@@ -308,6 +309,7 @@ Corrupt(x, flavour) ==
 
 Remove(x) ==
     /\ stage \in EnvStages /\ nenv < MaxEnv
+    /\ (other # NoOther => other.slot # x)
     /\ x \in DOMAIN files
     /\ files' = [y \in DOMAIN files \ {x} |-> files[y]]
     /\ nenv' = nenv + 1
@@ -318,6 +320,7 @@ Remove(x) ==
 \* a complete file cut short from outside (same state as a crash during its write)
 Truncate(x, k) ==
     /\ stage \in EnvStages /\ nenv < MaxEnv
+    /\ (other # NoOther => other.slot # x)
     /\ x \in DOMAIN files /\ files[x].st = "file" /\ files[x].cut = FLen /\ k \in 0..(FLen - 1)
     /\ files' = [files EXCEPT ![x].cut = k]
     /\ nenv' = nenv + 1
@@ -328,6 +331,7 @@ Truncate(x, k) ==
 \* a cache file is copied into the other directory (a distributed, pre-populated cache)
 Copy(x, d) ==
     /\ stage \in EnvStages /\ nenv < MaxEnv
+    /\ (other # NoOther => other.slot \notin {x, <<d, x[2]>>})
     /\ x \in DOMAIN files /\ d \in Dirs /\ d # x[1] /\ files[x].st # "dir"
     /\ (<<d, x[2]>> \in DOMAIN files => files[<<d, x[2]>>].st # "dir")
     /\ files' = (<<d, x[2]>> :> files[x]) @@ files
@@ -350,8 +354,9 @@ RemoveDir(d) ==
 
 \* the name of a cache file is taken by a directory: it cannot be read, and open(name, 'w') raises
 BlockName(x) ==
-    /\ stage \in EnvStages /\ nenv < MaxEnv /\ x[1] \in Dirs \ gone /\ x[2] # Tmp
-    /\ (other # NoOther => other.x # x)
+    /\ stage \in EnvStages /\ nenv < MaxEnv
+    /\ (other # NoOther => other.slot # x) /\ x[1] \in Dirs \ gone /\ x[2] # Tmp
+    /\ (x \in DOMAIN files => files[x].st # "dir")
     /\ files' = (x :> [st |-> "dir", tab |-> <<>>, cut |-> 0, under |-> ""]) @@ files
     /\ nenv' = nenv + 1
     /\ roBase' = InDir(files', ro)
@@ -360,18 +365,19 @@ BlockName(x) ==
 
 \* ---------------------------------------------------------------- another cache object on the same directory
 \* (a second Crazyflie of a swarm in its own thread, or another client process): it stores table t under
-\* checksum x[2] in directory x[1] -- never our read-only directory, never a checksum of our connection --
+\* checksum x[2] in directory x[1] (any, also the one we only read) -- never a checksum of our connection --
 \* in the same three steps as we do, interleaved with ours at any point.
 CurCrcs == IF stage \in {"down", "idle"} THEN {} ELSE {dev["log"].crc, dev["param"].crc}
 OSlot(x) == IF Bug = "sharedtmp" THEN <<x[1], Tmp>> ELSE x
 OtherBegin(x, t) ==
     /\ stage # "down" /\ nother < MaxOther /\ other = NoOther
-    /\ x[1] \in Dirs \ gone /\ x[1] # ro /\ x[2] \notin CurCrcs /\ x[2] # Tmp
+    /\ x[1] \in Dirs \ gone /\ x[2] \notin CurCrcs /\ x[2] # Tmp
     /\ (OSlot(x) \in DOMAIN files => files[OSlot(x)].st # "dir")
     /\ files' = (OSlot(x) :> [st |-> "file", tab |-> t, cut |-> 0, under |-> x[2]]) @@ files
     /\ other' = [x |-> x, slot |-> OSlot(x)]
     /\ nother' = nother + 1
-    /\ UNCHANGED <<ro, rw, known, stage, kind, dev, toc, ret, wdir, fsnap, obsL, obsP, roBase,
+    /\ roBase' = InDir(files', ro)                   \* it may be OUR read-only directory: not a write of ours
+    /\ UNCHANGED <<ro, rw, known, stage, kind, dev, toc, ret, wdir, fsnap, obsL, obsP,
                    nconn, ncrash, nenv, gone>>
 
 Theirs == other.slot \in DOMAIN files /\ files[other.slot].st = "file" /\ files[other.slot].under = other.x[2]
